@@ -170,6 +170,28 @@ func (dm *DMap) loadOrCreateFragment(part *partitions.Partition) (*fragment, err
 	return f, nil
 }
 
+// loadOrCreateFragmentForWrite returns the fragment of the partition with its write lock held.
+// An empty fragment may be closed and removed from the partition (see janitor) while the caller waits
+// for the lock; a write into such a detached fragment would be acknowledged and lost. In that case the
+// current fragment of the partition is taken instead.
+func (dm *DMap) loadOrCreateFragmentForWrite(part *partitions.Partition) (*fragment, error) {
+	for {
+		f, err := dm.loadOrCreateFragment(part)
+		if err != nil {
+			return nil, err
+		}
+		f.Lock()
+		select {
+		case <-f.ctx.Done():
+			// closed and removed from the partition
+			f.Unlock()
+			continue
+		default:
+		}
+		return f, nil
+	}
+}
+
 func (dm *DMap) loadFragment(part *partitions.Partition) (*fragment, error) {
 	f, ok := part.Map().Load(dm.fragmentName)
 	if !ok {
